@@ -293,12 +293,29 @@ package slice
 //@
 //@ pred scriptUpTo(out []Edit[T], lhs Slice, rhs Slice, eq func(T, T) bool, lp imap[int], rp imap[int], L int, R int) := scriptOK(out, lhs, rhs, eq, lp, rp) && lp[len(out)] == L && rp[len(out)] == R && (len(out) > 0 ==> fresh(out)) && old_arrays_unchanged(out)
 //@
+// altOK: kept runs (Emit) and changes alternate. With at most one change edit between two kept runs this is the
+// canonical form C11 states: adjacent edits differ in kind and a drop is never next to a copy (they are one Replace).
+//@ pred altOK(out []Edit[T]) := forall a int, b int :: {out[a], out[b]} 0 <= a && b == a + 1 && b < len(out) ==> ((out[a].Op == OpEmit) != (out[b].Op == OpEmit))
+//@
 //@ func editScriptFunc
 //@   role eq eqv
 //@   ghostret lp imap[int], rp imap[int]
 //@   ensures [C11] script: len(result) > 0 ==> scriptOK(result, lhs, rhs, eq, lp, rp) && lp[len(result)] == len(lhs) && rp[len(result)] == len(rhs)
 //@   ensures [C11] same: len(result) == 0 ==> len(lhs) == len(rhs) && forall t int :: {lhs[t]} 0 <= t && t < len(lhs) ==> eqv(eq, lhs[t], rhs[t])
 //@   ensures [C11] inputs: unchanged(elems(lhs)) && unchanged(elems(rhs))
+//@   ensures [C11] alternate: altOK(result)
+//@   loop 1: invariant [C11] alt: altOK(out) && (len(out) > 0 ==> out[len(out) - 1].Op == OpEmit)
+//@   loop 1: invariant [C11] gap: len(out) > 0 && i < len(lcs) ==> !(eqv(eq, lhs[lpos], lcs[i]) && eqv(eq, rhs[rpos], lcs[i]))
+//@   loop 2: invariant [C11] first: lend > lpos ==> !eqv(eq, lhs[lpos], lcs[i])
+//@   loop 3: invariant [C11] first: rend > rpos ==> !eqv(eq, rhs[rpos], lcs[i])
+//@   at after "out = append(out, Edit[T]{Op: OpReplace, X: lhs[lpos:lend], Y: rhs[rpos:rend]})": assert [C11] altOK(out) && out[len(out) - 1].Op == OpReplace
+//@   at after "out = append(out, Edit[T]{Op: OpDrop, X: lhs[lpos:lend]})": assert [C11] altOK(out) && out[len(out) - 1].Op == OpDrop
+//@   at after "out = append(out, Edit[T]{Op: OpCopy, Y: rhs[rpos:rend]})": assert [C11] altOK(out) && out[len(out) - 1].Op == OpCopy
+//@   at before "m := 1": assert [C11] altOK(out) && (len(out) > 0 ==> out[len(out) - 1].Op != OpEmit)
+//@   at after "out = append(out, Edit[T]{Op: OpEmit, X: lhs[lpos : lpos+m]})": assert [C11] altOK(out) && out[len(out) - 1].Op == OpEmit
+//@   at after "out = append(out, Edit[T]{Op: OpReplace, X: lhs[lpos:], Y: rhs[rpos:]})": assert [C11] altOK(out) && out[len(out) - 1].Op == OpReplace
+//@   at after "out = append(out, Edit[T]{Op: OpDrop, X: lhs[lpos:]})": assert [C11] altOK(out) && out[len(out) - 1].Op == OpDrop
+//@   at after "out = append(out, Edit[T]{Op: OpCopy, Y: rhs[rpos:]})": assert [C11] altOK(out)
 //@   at after "lcs := LCSFunc(lhs, rhs, eq)": ghost wa = LCSFunc_wa
 //@   at after "lcs := LCSFunc(lhs, rhs, eq)": ghost wb = LCSFunc_wb
 //@   at after "lcs := LCSFunc(lhs, rhs, eq)": ghost lp[0] = 0
